@@ -49,3 +49,25 @@ contract(F + "Alignment.compute_disorder",
                                 "forall(t, 0, i, not isnone(L()[t]._disorder) and some(L()[t]._disorder) == DD[t])"])},
          hooks=[("after", "disorders = ...", "DD = raw(disorders)")],
          serves={"C03"})
+
+# the soft alignment recomputes its disorder by the same code (a copy of the method)
+contract(F + "SoftAlignment.compute_disorder",
+         params={"self": ALIGN("SoftAlignment"), "dissimilarity": _DISSIM()}, returns=RealT(), modifies=["self.unitary_alignments", "self._disorder"],
+         macros=VIEW_MACROS + _CD_MACROS,
+         ghost_vars={"DD": ("AReal", None)},
+         calls={"dissimilarity.compute_disorder": "pygamma_agreement/dissimilarity.py::AbstractDissimilarity.compute_disorder",
+                "self.avg_num_annotations_per_annotator": F + "Alignment.avg_num_annotations_per_annotator#attached"},
+         requires=["not isnone(self.continuum)", "NumUnits(CC()) >= 1", "Nkeys(CC()) >= 1"] + _CD_REQ,
+         raises={"AssertionError": {}},
+         ensures=[cl("len(L()) == old(len(self.unitary_alignments))", "C03", name="same-unitary-alignments"),
+                  cl("forall(t, 0, len(L()), L()[t]._n_tuple == old(self.unitary_alignments)[t]._n_tuple and not isnone(L()[t]._disorder) and "
+                     "some(L()[t]._disorder) == DD[t])", "C03", name="D2-every-unitary-alignment-carries-its-recomputed-disorder"),
+                  cl("not isnone(self._disorder) and some(self._disorder) == result and "
+                     "result * (toreal(NumUnits(CC())) / Nkeys(CC())) == rpsum(DD, len(L()))", "C03",
+                     name="D2-alignment-disorder-is-the-sum-of-unitary-disorders-over-the-mean-number-of-units")],
+         loops={"L0": dict(match="for i, disorder in enumerate(disorders)", modifies=["self.unitary_alignments"],
+                           inv=["len(L()) == old(len(self.unitary_alignments))",
+                                "forall(t, 0, len(L()), L()[t]._n_tuple == old(self.unitary_alignments)[t]._n_tuple)",
+                                "forall(t, 0, i, not isnone(L()[t]._disorder) and some(L()[t]._disorder) == DD[t])"])},
+         hooks=[("after", "disorders = ...", "DD = raw(disorders)")],
+         serves={"C03"})
